@@ -47,7 +47,14 @@ DOCS = [
     ('kdyn', 'strict', '\\entry{a}{b} !! c', [], False),
     ('kdyn2', 'strict', 'a \\begin{e}[o]\\begin{g}\\entry{a}{b}!!\\end{g}\\end{e}', ['o', 'm'], False),
     ('kdyn2', 'tolerant', '\\entry{a}{b}!! \\m', ['m'], False),
+    # required vs optional delimited arguments with the same delimiters, present and absent
+    ('kext', 'strict', '\\dp(a) b \\dp c', ['d()'], False),
+    ('kext', 'tolerant', '\\rp c \\rp(e) f', ['r()'], False),
+    ('kext', 'strict', '\\os[g] h \\os i', ['o'], False),
+    ('kext', 'tolerant', '\\rs i \\rs[j]', ['r[]'], False),
 ]
+POOLS = [list(range(1, 10)), list(range(10, 14)) + list(range(21, 25)), list(range(14, 21))]
+COLLIDE = [('r()', 'd()'), ('d()', 'r()'), ('r[]', 'o'), ('o', 'r[]')]
 LOCAL_DEFS = {17: ['entry', '!!'], 19: ['entry', '!!']}
 FREE_NAMES = {18: ['entry', '!!'], 20: ['entry', '!!']}
 
@@ -56,6 +63,7 @@ EXTENDS ParseHistory
 UsesDef == %(uses)s
 CtxOfDef == %(ctxof)s
 LocalDefsDef == %(local)s
+CollideDef == {%(collide)s}
 FreeNamesDef == %(free)s
 ====
 """
@@ -65,6 +73,7 @@ CFG = """CONSTANTS
   NestedVerb = {%(nested)s}
   CtxOf <- CtxOfDef
   LocalDefs <- LocalDefsDef
+  Collide <- CollideDef
   FreeNames <- FreeNamesDef
   MaxLen = %(maxlen)d
   Variant = "%(variant)s"
@@ -82,7 +91,8 @@ def mc():
     uses = ' @@ '.join('(%d :> {%s})' % (i + 1, ', '.join('"%s"' % k for k in d[3])) for i, d in enumerate(DOCS))
     ctxof = ' @@ '.join('(%d :> "%s")' % (i + 1, d[0]) for i, d in enumerate(DOCS))
     names = lambda tab: ' @@ '.join('(%d :> {%s})' % (i + 1, ', '.join('"%s"' % x for x in tab.get(i + 1, []))) for i in range(len(DOCS)))
-    return MC % dict(uses=uses, ctxof=ctxof, local=names(LOCAL_DEFS), free=names(FREE_NAMES))
+    return MC % dict(uses=uses, ctxof=ctxof, local=names(LOCAL_DEFS), free=names(FREE_NAMES),
+                     collide=', '.join('<<"%s", "%s">>' % c for c in COLLIDE))
 
 
 def cfg(maxlen, variant='intended', emit=True, docs=None):
@@ -208,17 +218,30 @@ def run(ctx):
     rc = common.run_tlc('MC_ParseHistory', cfg(3, 'as_implemented', emit=False), mc_text=text, workers=2, timeout=300)
     ctx.add_tlc(rc, 'control: Variant=as_implemented')
     ctx.control('verbatim nesting counter kept on the cached parser violates Pure', rc.violated == 'Pure', str(rc.violated))
+    rc = common.run_tlc('MC_ParseHistory', cfg(3, 'key_collision', emit=False), mc_text=text, workers=2, timeout=300)
+    ctx.add_tlc(rc, 'control: Variant=key_collision')
+    ctx.control('a parser cache whose key identifies required and optional delimited arguments violates Pure',
+                rc.violated == 'Pure', str(rc.violated))
     rc = common.run_tlc('MC_ParseHistory', cfg(3, 'ext_leaks', emit=False), mc_text=text, workers=2, timeout=300)
     ctx.add_tlc(rc, 'control: Variant=ext_leaks')
     ctx.control('a context extension that writes into the extended database violates DbUnchanged / Pure',
                 rc.violated in ('DbUnchanged', 'Pure'), str(rc.violated))
     base = {str(k): v for k, v in baselines().items()}
     ctx.notes['baseline_interpreters'] = len(base)
-    job = dict(payload=dict(baselines=base), main='MC_ParseHistory', mc=text, cfg=cfg(3 if quick else 4),
-               tlc_kw=dict(timeout=3000, workers=1))
-    m = common.run_dispatch(ctx, ('harness.c09', 'HistConsumer'), job, what='ParseHistory: all histories', batch=25)
-    ctx.add_merged(m)
-    ctx.log('exhaustive: %d histories, %d parses' % (m['n'], m['counters'].get('parses', 0)))
+    # every history of <= L calls over all documents, and of <= L + 1 calls within each pool of documents that share a context
+    # family (the documents of a pool use the same argument kinds and databases, where carried state can meet)
+    L = 2 if quick else 3
+    plans = [(None, L)] + [(pool, L + 1) for pool in POOLS]
+    tot = 0
+    for docs, maxlen in plans:
+        job = dict(payload=dict(baselines=base), main='MC_ParseHistory', mc=text, cfg=cfg(maxlen, docs=docs),
+                   tlc_kw=dict(timeout=3000, workers=1))
+        m = common.run_dispatch(ctx, ('harness.c09', 'HistConsumer'), job,
+                                what='ParseHistory: histories <= %d over %s' % (maxlen, 'all documents' if docs is None else 'pool %s' % docs), batch=25)
+        ctx.add_merged(m)
+        tot += m['n']
+        ctx.log('exhaustive <= %d calls over %s: %d histories, %d parses' % (
+            maxlen, 'all %d documents' % len(DOCS) if docs is None else 'documents %s' % docs, m['n'], m['counters'].get('parses', 0)))
     sim = dict(payload=dict(baselines=base), main='MC_ParseHistory', mc=text, cfg=cfg(12),
                tlc_kw=dict(timeout=600, workers=1, simulate='num=%d' % (30 if quick else 400), depth=13,
                            seed=ctx.seed % (2 ** 31)))
